@@ -43,6 +43,24 @@ CHECKS = {
         text="All signature shapes within the bound x function kinds x docstring shapes are compiled by the real compilers and "
              "decoded by the real library; TLC compares the decoded Args/docstring/type with CPython's own reading.",
         ref="DESIGN.md 5 C04"),
+    "C05": dict(
+        technique="TLA+ Normalize!Sem (meaning of a code object as CPython reads it) checked by TLC on MC_Decode "
+                  "(NormalizeModel) and, by trace validation (Trace_Encode P05.*), on CPython's reading of every corpus code "
+                  "object before and after from_code/normalize/to_code; MC_Programs behaviours executed twice under "
+                  "sys.settrace and compared by TLC (Trace_Exec)",
+        text="TLC evaluates the meaning projection on CPython's own reading (dis, PyCode_Addr2Line, header) of the original "
+             "and of the normalised code object and requires equality, for every corpus code object; every program of the "
+             "bounded grammar model is executed in both forms and the traced behaviours must coincide.",
+        ref="DESIGN.md 5 C05"),
+    "C06": dict(
+        technique="TLA+ Normalize!Canon (canonical data as a function of CPython's reading) checked by TLC on MC_Decode "
+                  "(CanonicalModel, NormalizeModel) and by trace validation of the real normalize(from_code(c)) (Trace_Encode "
+                  "P06.*); layout variants from an independent assembler; Api.tla histories enumerated by TLC and replayed on "
+                  "real objects (Trace_Api)",
+        text="Canonical form is decided as equality with a canonical function of CPython's reading, so artefact variants "
+             "coincide by construction; verified on every corpus code object, on random layout variants of real modules, and "
+             "along every API history within the bound.",
+        ref="DESIGN.md 5 C06"),
     "C09": dict(
         technique="TLA+ first-use ranks computed from CPython's reading (DecodeProps) + override-removal experiments on the real "
                   "library, validated by TLC (P09.*) on model streams and compiled code objects; reference decoder with the "
@@ -67,6 +85,13 @@ CHECKS = {
              "losslessness on known words, an exception on unknown bits, and raise-or-reproduce for every header the real "
              "constructor accepts (the model of the constructor is compared with the real one on every case).",
         ref="DESIGN.md 5 C11"),
+    "C12": dict(
+        technique="TLA+ history machine Api.tla; TLC enumerates all histories up to a length (MC_Api); each replayed on real "
+                  "objects with deep fingerprints of every live object after every call; TLC trace validation (Trace_Api, "
+                  "P12.*)",
+        text="Every history of the bounded API machine is executed on several real base programs per interpreter, documents "
+             "used as returned; TLC requires that no stored object ever changes, no call raises, and repeated calls agree.",
+        ref="DESIGN.md 5 C12"),
     "C13": dict(
         technique="TLA+ MC_Decode exhaustive over jump graphs on word-code streams; replay as real code objects; TLC trace "
                   "validation (Trace_Decode, clauses P13.*) of block structure against dis jump targets",
